@@ -427,7 +427,7 @@ func c02hot(c *Ctx) {
 					continue
 				}
 				x, y, op := cnd.X, cnd.Y, cnd.Op
-				if p.Abs(x).K == px.ConstV && p.Abs(y).K != px.ConstV {
+				if isConstSym(x) && !isConstSym(y) {
 					x, y, op = y, x, flip(op)
 				}
 				ay := p.Abs(y)
